@@ -974,6 +974,37 @@ theorem dtlz7_structure (x : List ℝ) (M : Nat) (hM : 1 ≤ M) (hn : M ≤ x.le
 
 example : (1 : Nat) ≤ 3 ∧ 3 ≤ [(0.1 : ℝ), 0.2, 0.3, 0.4].length := by simp
 
+/-! ## 8b. `rand`, stacked decorators -/
+
+
+/-- `rand`: one objective, the next draw of `random.random()`, independent of the individual. -/
+theorem rand_draw (x : List ℝ) (r : ℝ) (rest : List ℝ) : Bench.rand x (r :: rest) = some (r, rest) := rfl
+
+/-- Stacked decorators `@translate(t) @rotate(R) @scale(c)`: the innermost function receives
+`R⁻¹(x − t) / c`; scaling, rotating and translating it forward gives the individual back. -/
+theorem stack_arg {n : Nat} (R Rinv : Matrix (Fin n) (Fin n) ℝ) (hinv : R * Rinv = 1)
+    (t c v : Fin n → ℝ) (hc : ∀ i, c i ≠ 0) :
+    stackArg (List.ofFn t) (rows Rinv) (List.ofFn c) (List.ofFn v)
+      = some (List.ofFn fun i => Rinv.mulVec (fun j => v j - t j) i / c i) ∧
+    (fun i => R.mulVec (fun k => (Rinv.mulVec (fun j => v j - t j) k / c k) * c k) i + t i) = v := by
+  constructor
+  · have ht : translateArg (List.ofFn t) (List.ofFn v) = List.ofFn fun j => v j - t j := by
+      simp only [translateArg, List.map_zip_eq_zipWith]
+      exact zipWith_ofFn (fun a b => a - b) v t
+    have hcs : ∀ d ∈ List.ofFn c, d ≠ 0 := by
+      intro d hd; simp only [List.mem_ofFn] at hd; obtain ⟨i, rfl⟩ := hd; exact hc i
+    simp only [stackArg, ht, matVec_rows]
+    have := (scale_arg (fun l => l) (List.ofFn c) (List.ofFn (Rinv.mulVec fun j => v j - t j)) hcs (by simp)).1
+    simp only [scale, Option.map_eq_some_iff] at this
+    obtain ⟨a, ha, rfl⟩ := this
+    rw [ha, zipWith_ofFn]
+  · funext i
+    have : (fun k => (Rinv.mulVec (fun j => v j - t j) k / c k) * c k) = Rinv.mulVec (fun j => v j - t j) := by
+      funext k; field_simp [hc k]
+    rw [this, Matrix.mulVec_mulVec, hinv, Matrix.one_mulVec]; ring
+
+example : (1 : Matrix (Fin 2) (Fin 2) ℝ) * 1 = 1 ∧ ∀ i : Fin 2, (fun _ => (2 : ℝ)) i ≠ 0 := by simp
+
 /-! ## 9. Moving peaks: totality on well-typed tapes, counted evaluations (any scalar type) -/
 
 section MPTotal
@@ -1039,6 +1070,64 @@ theorem mp_count_inv_total (cfg : Config α) (k : Nat) (peaks : List (Peak α)) 
 example : ∀ cfg : Config ℝ, cfg.limits = none → ServesTimes cfg 2 0 [] := by
   intro cfg h
   simp [ServesTimes, changeReqs, numberReqs, newLen, plan, h, allReqs, Serves]
+
+/-- a realistic instance of the hypotheses of `mp_count_inv_total`: limits [1, 3], two 1-D peaks, one change that
+adds a peak (u = 3/4 ≥ ½, rounded request 1), served by a 16-draw tape -/
+noncomputable def cfgEx2 : Config ℝ :=
+  { dim := 1, limits := some (1, 3), numberSeverity := 1, pool := [.cone, .function1], minCoord := 0, maxCoord := 100,
+    minHeight := 30, maxHeight := 70, minWidth := 1, maxWidth := 12, lambda := 0, moveSeverity := 1,
+    heightSeverity := 7, widthSeverity := 1, roundInt := fun _ => 1 }
+
+example :
+    DimOK cfgEx2.dim [(⟨.cone, [10], 50, 5, [0]⟩ : Peak ℝ), ⟨.function1, [60], 40, 2, [1/4]⟩] ∧
+    ServesTimes cfgEx2 1 2
+      [.random (3/4), .random (1/2), .choice 1, .uniform 33, .uniform 45, .uniform 3, .random (1/8),
+       .random (1/2), .gauss 0, .gauss 1, .random (1/4), .gauss (-1), .gauss 0, .random (3/4), .gauss 2, .gauss 0] := by
+  constructor
+  · intro p hp; simp at hp; rcases hp with rfl | rfl <;> simp [cfgEx2]
+  · have h : ¬ ((3 / 4 : ℝ) < 1 / 2) := by norm_num
+    simp only [ServesTimes, changeReqs, numberReqs, newLen, plan, cfgEx2, half, RealLike.real_ofRatio, RealLike.real_lt]
+    norm_num [imin, addReqs, addBlock, allReqs, peakReqs, Serves, kindOK, List.replicate]
+
+/-- `MovingPeaks.__init__` builds one peak per peak function, each with `dim` coordinates and a `dim`-long
+last-change vector — the invariant `DimOK` that `changePeaks_total` and `mp_count_inv_total` start from. -/
+theorem mp_init_dim (dim : Nat) (fns : List PFunc) (uh uw : α) (t : Tape α) (peaks : List (Peak α)) (t' : Tape α)
+    (h : initPeaks dim fns uh uw t = some (peaks, t')) :
+    peaks.length = fns.length ∧ DimOK dim peaks ∧ peaks.map (·.fn) = fns := by
+  unfold initPeaks at h
+  simp only at h
+  split at h
+  · simp at h
+  · next poss t1 h1 =>
+    split at h
+    · simp at h
+    · next hs t2 h2 =>
+      split at h
+      · simp at h
+      · next ws t3 h3 =>
+        split at h
+        · simp at h
+        · next lasts t4 h4 =>
+          simp only [Option.some.injEq, Prod.mk.injEq] at h
+          obtain ⟨p1, p2⟩ := popGroups_spec _ _ _ _ _ _ h1
+          obtain ⟨l1, l2⟩ := popGroups_spec _ _ _ _ _ _ h4
+          have hh := initScalars_length _ _ _ _ _ h2
+          have hw := initScalars_length _ _ _ _ _ h3
+          rw [← h.1]
+          refine ⟨by simp [List.length_zip, p1, l1, hh, hw], ?_, ?_⟩
+          · intro p hp
+            simp only [List.mem_map] at hp
+            obtain ⟨q, hq, rfl⟩ := hp
+            have a := List.of_mem_zip hq
+            have b := List.of_mem_zip a.2
+            have c := List.of_mem_zip b.2
+            have d := List.of_mem_zip c.2
+            exact ⟨p2 _ b.1, by simp [l2 _ d.2]⟩
+          · simp only [List.map_map]
+            have : ((fun p : Peak α => p.fn) ∘ fun q : PFunc × List α × α × α × List α =>
+                (⟨q.1, q.2.1, q.2.2.1, q.2.2.2.1, q.2.2.2.2.map fun r => r - half⟩ : Peak α)) = Prod.fst := rfl
+            rw [this, List.map_fst_zip]
+            simp [List.length_zip, p1, l1, hh, hw]
 
 /-- **Counted evaluation**: the fitness is the `max` of the current peaks' values, `nevals` grows by
 exactly one, and `changePeaks` runs (on the current peaks, with the current tape) exactly when
